@@ -17,7 +17,7 @@ transition with opposite displacement, compare Q − Q_rev with E_final − E_in
 A failing table test yields a minimal site set; occupying exactly those sites is tried on the real
 sampler as a concrete failing input.
 """
-import itertools, os, time, multiprocessing as mp
+import copy, itertools, os, time, multiprocessing as mp
 import numpy as np
 from props import _clusterzoo as Z
 
@@ -47,7 +47,9 @@ META = dict(
               'Onsager.C34.dbCheck_sound_mk', 'Onsager.C34.dbCheckVac_sound_mk'],
     tie_theorems=[],
     rule='configuration = zoo crystal x supercell x (no vacancy | vacancy on a random site of the jumping species) x '
-         'cluster order x integer cluster / KRA / TS values x spectator occupation; a case is one (configuration, '
+         'cluster order x integer cluster / KRA / TS values x spectator occupation; plus sampler-reuse histories (start / transitions / '
+         'E / deltaE_trial / update in random order on one sampler, each observation against a fresh sampler; transitions '
+         'after start(occ) must be exactly the allowed jumps of occ in jump-list order); a case is one (configuration, '
          'occupation); non-trivial = at least one transition reported; supercells small enough that two sites of one '
          'cluster-plus-jump environment are periodic images (wrap) are kept but classified separately',
     trusted=['pairing of jump k with its reverse k\' by (j, i, −dx) in the sampler\'s own jump list',
@@ -127,24 +129,111 @@ def eval_line(name, MC, occ, isvac):
     ijl, Ql, dxl = MC.transitions()
     # identify the reported transitions with jump indices: transitions() keeps the order of MC.jumps
     ks = [k for k, ((i, j), dx) in enumerate(MC.jumps) if isvac or not (occ[i] == 0 or occ[j] == 1)]
-    assert len(ks) == len(Ql)
+    if len(ks) != len(Ql): return None, None     # reported by the reuse-history / allowed-set oracles
     txt = ';'.join('%d:%s' % (k, Z.frac(q)) for k, q in zip(ks, Ql)) if len(ks) else '-'
     return 'eval %s %d %s' % (name, 1 if isvac else 0, Z.show_l(occ)), '%s | %s' % (Z.frac(E), txt)
 
 
-def all_states(MC, n, vac, occs):
-    """start/E/transitions for each occupation: {bits: (E, {k: Q})}"""
+def allowed_jumps(MC, occ, vac):
+    """indices of the jumps transitions() must list for occ, in the documented order (that of MC.jumps)"""
+    return [k for k, ((i, j), dx) in enumerate(MC.jumps) if vac is not None or not (occ[i] == 0 or occ[j] == 1)]
+
+
+def transitions_ok(MC, occ, vac, tr):
+    ijl, Ql, dxl = tr
+    ks = allowed_jumps(MC, occ, vac)
+    return (len(ks) == len(ijl) == len(Ql) == len(dxl) and
+            all(tuple(ij) == tuple(MC.jumps[k][0]) and np.allclose(dx, MC.jumps[k][1]) for k, ij, dx in zip(ks, ijl, dxl)))
+
+
+def all_states(MC, n, vac, occs, viol=None, cls='', pristine=None):
+    """start/E/transitions for each occupation on ONE sampler: {bits: (E, {k: Q})}.  The transitions reported after
+    start(occ) must be exactly the allowed jumps of occ; if not, that is a violation (replay: the previous and the
+    current occupation) and the data for this occupation are taken from a fresh sampler."""
+    import copy
     tbl = {}
+    prev = None
     for occ in occs:
         MC.start(occ.copy())
         E = float(MC.E())
-        ijl, Ql, dxl = MC.transitions()
-        ks = [k for k, ((i, j), dx) in enumerate(MC.jumps) if vac is not None or not (occ[i] == 0 or occ[j] == 1)]
-        if len(ks) != len(Ql): raise ArithmeticError('transitions() order')
-        for k, ij in zip(ks, ijl):
-            if tuple(ij) != tuple(MC.jumps[k][0]): raise ArithmeticError('transitions() order')
-        tbl[Z.occ_bits(occ)] = (E, dict(zip(ks, (float(q) for q in Ql))))
+        tr = MC.transitions()
+        if not transitions_ok(MC, occ, vac, tr):
+            if viol is not None:
+                viol('transitions-stale-after-start:' + cls if prev is not None else 'transitions-not-allowed-set:' + cls,
+                     'after start(occ) transitions() lists %r, the allowed jumps of occ are %r'
+                     % ([tuple(map(int, x)) for x in tr[0]][:12], [tuple(map(int, MC.jumps[k][0])) for k in allowed_jumps(MC, occ, vac)][:12]),
+                     previous_occ=None if prev is None else [int(x) for x in prev], occ=[int(x) for x in occ],
+                     history=['start(previous_occ)', 'E()', 'transitions()', 'start(occ)', 'E()', 'transitions()'])
+            if pristine is None: raise ArithmeticError('transitions() does not list the allowed jumps')
+            MC = copy.deepcopy(pristine)
+            MC.start(occ.copy()); E = float(MC.E()); tr = MC.transitions()
+            if not transitions_ok(MC, occ, vac, tr): raise ArithmeticError('fresh sampler: transitions() does not list the allowed jumps')
+        ks = allowed_jumps(MC, occ, vac)
+        tbl[Z.occ_bits(occ)] = (E, dict(zip(ks, (float(q) for q in tr[1]))))
+        prev = occ
     return tbl
+
+
+def reuse_history(MC, pristine, n, vac, nrng, viol, cls, nops=14):
+    """One sampler driven through start / transitions / E / deltaE_trial / update in random order; every observation is
+    compared with a fresh sampler (a copy of a never-started one) started on the current occupation."""
+    import copy
+    free = [k for k in range(n) if k != vac]
+
+    def rocc():
+        o = np.zeros(n, dtype=int); o[free] = nrng.integers(0, 2, size=len(free))
+        if vac is not None: o[vac] = -1
+        return o
+
+    def swap(cur):
+        on = [k for k in free if cur[k] == 1]; off = [k for k in free if cur[k] == 0]
+        if not on or not off: return None
+        return int(on[int(nrng.integers(len(on)))]), int(off[int(nrng.integers(len(off)))])
+    cur = rocc(); MC.start(cur.copy())
+    hist = ['start(%s)' % cur.tolist()]
+    nobs = 0
+    for _ in range(nops):
+        op = ['start', 'transitions', 'transitions', 'E', 'deltaE', 'update'][int(nrng.integers(6))]
+        prevop = hist[-1].split('(')[0]
+        if op == 'start':
+            cur = rocc(); MC.start(cur.copy()); hist.append('start(%s)' % cur.tolist()); continue
+        sw = swap(cur)
+        if op == 'update':
+            if sw is None: continue
+            MC.update((sw[1],), (sw[0],)); cur[sw[0]], cur[sw[1]] = 0, 1
+            hist.append('update((%d,),(%d,))' % (sw[1], sw[0])); continue
+        ref = copy.deepcopy(pristine); ref.start(cur.copy())
+        nobs += 1
+        if op == 'transitions':
+            a, b = MC.transitions(), ref.transitions()
+            same = (len(a[0]) == len(b[0]) and all(tuple(x) == tuple(y) for x, y in zip(a[0], b[0])) and
+                    list(map(float, a[1])) == list(map(float, b[1])) and np.allclose(a[2], b[2]) if len(a[0]) == len(b[0]) else False)
+            hist.append('transitions()')
+            if not same or not transitions_ok(MC, cur, vac, a):
+                viol(('transitions-stale-after-start:' if prevop in ('start', 'E', 'deltaE_trial') and any(h.startswith('start') for h in hist[-4:-1])
+                      else 'reuse-history:transitions-after-%s:' % prevop) + cls,
+                     'transitions() of a reused sampler differs from a fresh sampler on the same occupation: %r vs %r'
+                     % ([tuple(map(int, x)) for x in a[0]][:10], [tuple(map(int, x)) for x in b[0]][:10]),
+                     occ=cur.tolist(), history=list(hist))
+                return nobs
+        elif op == 'E':
+            hist.append('E()')
+            if float(MC.E()) != float(ref.E()):
+                viol('reuse-history:E-after-%s:%s' % (prevop, cls), 'E() of a reused sampler %r, fresh sampler %r' % (float(MC.E()), float(ref.E())),
+                     occ=cur.tolist(), history=list(hist))
+                return nobs
+        else:
+            if sw is None: continue
+            hist.append('deltaE_trial((%d,),(%d,))' % (sw[1], sw[0]))
+            a, b = float(MC.deltaE_trial((sw[1],), (sw[0],))), float(ref.deltaE_trial((sw[1],), (sw[0],)))
+            ref.update((sw[1],), (sw[0],))
+            e1 = float(ref.E()); ref.update((sw[0],), (sw[1],)); e0 = float(ref.E())
+            if a != b or a != e1 - e0:
+                viol('reuse-history:deltaE_trial-after-%s:%s' % (prevop, cls),
+                     'deltaE_trial of a reused sampler %r, fresh sampler %r, energy difference %r' % (a, b, e1 - e0),
+                     occ=cur.tolist(), history=list(hist))
+                return nobs
+    return nobs
 
 
 def _occs(n, vac, nrng, exhaust, nrandom):
@@ -205,6 +294,9 @@ def eval_config(spec):
     if exhaustive: res['flags'].add('exhaustive')
     struct = (not wrap) and spec.get('struct', True)
     add(tab_line(tag + 'F', MCF), 'ok %d 1' % len(MCF.jumps), 'tab')
+    PF = copy.deepcopy(MCF)      # never started: the source of fresh samplers
+    for _ in range(spec.get('nhist', 3)):
+        res['nhist'] = res.get('nhist', 0) + reuse_history(copy.deepcopy(PF), PF, n, vac, nrng, viol, cls)
     if not isvac:
         # ---------------- moving atom
         pairs = reverse_pairs(MCF.jumps, MCF.jumps)
@@ -216,7 +308,7 @@ def eval_config(spec):
         plist = [(k, p[0]) for k, p in enumerate(pairs) if len(p) == 1 and MCF.jumps[k][0][0] != MCF.jumps[k][0][1]]
         badk = set()
         if exhaustive:
-            tbl = all_states(MCF, n, vac, occs)
+            tbl = all_states(MCF, n, vac, occs, viol, cls, PF)
             res['nocc'] = len(occs)
             for occ in occs:
                 b = Z.occ_bits(occ)
@@ -245,6 +337,11 @@ def eval_config(spec):
                 E0 = float(MCF.E())
                 ijl, Ql, dxl = MCF.transitions()
                 res['nocc'] += 1
+                if not transitions_ok(MCF, occ, vac, (ijl, Ql, dxl)):
+                    viol('transitions-stale-after-start:' + cls, 'after start(occ) transitions() does not list the allowed jumps of occ',
+                         occ=[int(x) for x in occ], history=['…', 'start(occ)', 'E()', 'transitions()'])
+                    MCF = copy.deepcopy(PF)
+                    continue
                 order = list(range(len(ijl)))
                 nrng.shuffle(order)
                 for t in order[:spec.get('ntrans', 8)]:
@@ -265,8 +362,8 @@ def eval_config(spec):
                     MCF.update((i,), (j,))
         # model read-out of the table on a few occupations
         for t in nrng.choice(len(occs), size=min(4, len(occs)), replace=False):
-            l, e = eval_line(tag + 'F', MCF, occs[int(t)], False)
-            add(l, e, 'eval')
+            l, e = eval_line(tag + 'F', copy.deepcopy(PF), occs[int(t)], False)
+            if l is not None: add(l, e, 'eval')
         ptxt = ';'.join('%d:%d' % p for p in plist) if plist else '-'
         add('db %sF %s' % (tag, ptxt), sorted(badk) if exhaustive else None, 'db')
         if struct:
@@ -278,7 +375,7 @@ def eval_config(spec):
     else:
         # ---------------- vacancy: final state lives in a sampler rebuilt with the vacancy on j
         res['nocc'] = len(occs)
-        tbl1 = all_states(MCF, n, vac, occs) if exhaustive else None
+        tbl1 = all_states(MCF, n, vac, occs, viol, cls, PF) if exhaustive else None
         byj = {}
         for k, ((i, j), dx) in enumerate(MCF.jumps):
             if i != vac: viol('vacancy-jump-origin:' + cls, 'jump %d starts on %d, vacancy on %d' % (k, i, vac), jump=k)
@@ -299,8 +396,9 @@ def eval_config(spec):
                 occs2.append(o2)
             badk = set()
             sel = range(len(occs)) if exhaustive else range(min(len(occs), spec.get('nvacocc', 12)))
-            tbl2 = all_states(MC2, n, j, [occs2[t] for t in sel])
-            if not exhaustive: tbl1s = all_states(MCF, n, vac, [occs[t] for t in sel])
+            P2 = copy.deepcopy(MC2)
+            tbl2 = all_states(MC2, n, j, [occs2[t] for t in sel], viol, cls, P2)
+            if not exhaustive: tbl1s = all_states(MCF, n, vac, [occs[t] for t in sel], viol, cls, PF)
             for t in sel:
                 E0, Qs = (tbl1 if exhaustive else tbl1s)[Z.occ_bits(occs[t])]
                 E1, Qs2 = tbl2[Z.occ_bits(occs2[t])]
@@ -318,8 +416,8 @@ def eval_config(spec):
                              dx=[float(x) for x in MCF.jumps[k][1]], Q=Qs[k], Qrev=Qs2[k2], E0=E0, E1=E1)
             ptxt = ';'.join('%d:%d' % p for p in plist) if plist else '-'
             add(tab_line(tag + 'G', MC2), 'ok %d 1' % len(MC2.jumps), 'tab')
-            l, e = eval_line(tag + 'G', MC2, occs2[0], True)
-            add(l, e, 'eval')
+            l, e = eval_line(tag + 'G', copy.deepcopy(P2), occs2[0], True)
+            if l is not None: add(l, e, 'eval')
             add('dbv %sF %sG %s' % (tag, tag, ptxt), sorted(badk) if exhaustive else None, 'dbv:%d' % j)
             if struct and spec.get('vstruct', True):
                 if 'C' not in res['flags']:
@@ -333,8 +431,8 @@ def eval_config(spec):
             add('drop %sG' % tag, 'ok', 'drop')
         res['flags'].discard('C')
         for t in nrng.choice(len(occs), size=min(3, len(occs)), replace=False):
-            l, e = eval_line(tag + 'F', MCF, occs[int(t)], True)
-            add(l, e, 'eval')
+            l, e = eval_line(tag + 'F', copy.deepcopy(PF), occs[int(t)], True)
+            if l is not None: add(l, e, 'eval')
         add('drop %sC' % tag, 'ok', 'drop'); add('drop %sS' % tag, 'ok', 'drop'); add('drop %sF' % tag, 'ok', 'drop')
     res['n'] = n
     res['njumps'] = len(MCF.jumps)
@@ -488,6 +586,7 @@ def _run_specs(ctx, specs):
         ctx.count('class:' + ('wrap' if 'wrap' in fl else 'nowrap') + ':' + ('vac' if 'vac' in fl else 'novac'))
         if 'exhaustive' in fl: ctx.count('exhaustive-configs')
         ctx.count('zoo:' + r['spec']['zoo']); ctx.count('occupations', r['nocc']); ctx.count('transitions', r['ntrans'])
+        ctx.count('reuse-history-observations', r.get('nhist', 0))
         ctx.case((r['spec']['zoo'], r['spec']['S'], r['spec']['vac'], r['spec']['seed']), nontrivial=r['ntrans'] > 0,
                  sample=dict(zoo=r['spec']['zoo'], S=r['spec']['S'], vac=r['spec']['vac'], sites=r['n'], jumps=r['njumps'],
                              interactions=r['ninter'], occupations=r['nocc'], transitions=r['ntrans'], flags=fl))
@@ -558,6 +657,31 @@ def search(ctx, reasons):
 def replay(ctx, data):
     """./check C34 --replay replays/C34_….json : redo the recorded transition on the current tree."""
     rp = data.get('replay') or {}
+    if 'spec' in rp and 'history' in rp and 'occ' in rp:
+        # reuse history: run it on one sampler, compare the last observation with a fresh sampler
+        c = build(rp['spec'])
+        MC = make_sampler(c, 'F'); ref = copy.deepcopy(MC)
+        hist = list(rp['history'])
+        if rp.get('previous_occ') is not None:
+            hist = ['start(%s)' % rp['previous_occ'], 'E()', 'transitions()', 'start(%s)' % rp['occ'], 'E()', 'transitions()']
+        elif hist and hist[0] == '…':
+            hist = ['start(%s)' % rp['occ'], 'E()', 'transitions()']
+        out = None
+        for h in hist:
+            name, arg = h.split('(', 1)
+            args = eval('(' + arg[:-1] + ',)') if arg[:-1] else ()
+            if name == 'start': out = MC.start(np.array(args[0]))
+            else: out = getattr(MC, name)(*args)
+            print(h, '->', out if name != 'transitions' else [tuple(map(int, x)) for x in out[0]])
+        ref.start(np.array(rp['occ']))
+        last = hist[-1].split('(')[0]
+        if last == 'transitions':
+            fr = ref.transitions()
+            print('fresh sampler on', rp['occ'], '->', [tuple(map(int, x)) for x in fr[0]])
+            same = len(fr[0]) == len(out[0]) and all(tuple(a) == tuple(b) for a, b in zip(fr[0], out[0])) and \
+                list(map(float, fr[1])) == list(map(float, out[1]))
+            return 0 if same else 1
+        return 0
     if 'spec' not in rp or 'occ' not in rp or not isinstance(rp.get('jump'), list):
         print(data); return 0
     c = build(rp['spec'])
